@@ -439,14 +439,13 @@ pub fn one_run(rng: &mut Rng, large: bool, layout: u64) -> Vec<Value> {
             // below HP:1 with a modifier term (a child of HP:1 other than HP:118) among the leaves
             root = 1;
             let mods: Vec<u32> = ont.hpo(1u32).map(|t| t.children_ids().iter().map(|x| x.as_u32()).filter(|x| *x != 118).collect()).unwrap_or_default();
-            // proper descendants of a modifier root are the terms the record filter treats as "modifier";
-            // the modifier roots themselves are not (their ancestors contain no modifier root)
+            // modifier terms: the modifier roots and everything below them
             let below: Vec<u32> = order
                 .iter()
                 .copied()
                 .filter(|t| ont.hpo(*t).map(|x| x.all_parent_ids().iter().any(|a| mods.contains(&a.as_u32()))).unwrap_or(false))
                 .collect();
-            if !below.is_empty() {
+            if !below.is_empty() && (mods.is_empty() || rng.chance(1, 2)) {
                 leaves.insert(*rng.pick(&below));
             } else if !mods.is_empty() {
                 leaves.insert(*rng.pick(&mods));
